@@ -4,7 +4,7 @@ from hypothesis import strategies as st
 from ECAgent.Core import Agent, Environment, Model, ComponentNotFoundError
 from ECAgent.Environments import SpaceWorld
 from vf.engine import Violation, InvalidCase
-from vf.fixtures import CompA, CompB, CompC, CompD, check, expect_raises, sized_lists
+from vf.fixtures import CompA, CompB, CompC, CompD, check, expect_raises, sized_lists, wone_of
 
 PROPERTY = "C20"
 BUDGET = {"quick": 2000, "thorough": 5000}
@@ -178,20 +178,20 @@ def _tree(classes, parents):
 
 
 def strategy(tier):
-    cls = st.one_of(st.integers(0, 2), st.integers(0, 2), st.integers(0, 8))
-    t = st.one_of(st.just(0), st.integers(0, 2))
-    ops = st.one_of(
+    cls = wone_of(st.integers(0, 2), st.integers(0, 2), st.integers(0, 8))
+    t = wone_of(st.just(0), st.integers(0, 2))
+    ops = wone_of(
         st.fixed_dictionaries({"op": st.just("add_cc"), "cls": cls, "t": t}),
         st.fixed_dictionaries({"op": st.just("add_cc"), "cls": cls, "t": t}),
         st.fixed_dictionaries({"op": st.just("rem_cc"), "cls": cls, "t": t}),
         st.fixed_dictionaries({"op": st.just("set_tag"), "cls": cls, "v": st.integers(0, 5)}),
         st.fixed_dictionaries({"op": st.just("set_tag"), "cls": cls, "v": st.integers(0, 5)}),
-        st.fixed_dictionaries({"op": st.just("new"), "cls": cls, "tag": st.one_of(st.none(), st.none(), st.integers(0, 5))}),
-        st.fixed_dictionaries({"op": st.just("new"), "cls": cls, "tag": st.one_of(st.none(), st.none(), st.integers(0, 5))}),
+        st.fixed_dictionaries({"op": st.just("new"), "cls": cls, "tag": wone_of(st.none(), st.none(), st.integers(0, 5))}),
+        st.fixed_dictionaries({"op": st.just("new"), "cls": cls, "tag": wone_of(st.none(), st.none(), st.integers(0, 5))}),
         st.fixed_dictionaries({"op": st.just("inst_add"), "i": st.integers(0, 9), "t": t}),
     )
     return st.fixed_dictionaries({
-        "classes": st.lists(st.one_of(st.just(-1), st.just(-1), st.integers(0, 9)), min_size=2, max_size=7),
+        "classes": st.lists(wone_of(st.just(-1), st.just(-1), st.integers(0, 9)), min_size=2, max_size=7),
         "shared": st.integers(0, 3).map(lambda v: v == 0),
-        "ops": st.one_of(st.lists(ops, min_size=1, max_size=40), sized_lists(ops, 6, 40), sized_lists(ops, 6, 40)),
+        "ops": wone_of(st.lists(ops, min_size=1, max_size=40), sized_lists(ops, 6, 40), sized_lists(ops, 6, 40)),
     })
